@@ -27,6 +27,7 @@ func init() {
 var envConcPhases = []struct{ name, what string }{
 	{"lin", "2-3 goroutines x 2-3 operations on one shared scope, released together (all sequential orders enumerated)"},
 	{"firsts", "4 goroutines: first DefineType + Define on a fresh scope"},
+	{"shadow", "a symbol bound in the shared scope and in its parent: Set / Get / Type from one goroutine while another deletes and re-defines the inner binding"},
 	{"snapshot", "writer: Define(v_i), DefineType(t_i) on one scope; readers: Copy / DeepCopy and symbol listings"},
 	{"stress", "8 goroutines x 400 random operations incl. String, DefineType, Type, DeepCopy, symbol listings on one scope"},
 }
@@ -369,6 +370,68 @@ func streamEnvConc(o *Out, r *rand.Rand, n int, thorough bool) {
 		}
 	}
 	o.Sum.Evaluations += firsts
+	// a shadowed symbol: the parent binds x (value and type) throughout, the shared scope's own binding of x comes and
+	// goes. In every one-at-a-time order Set(x), Get(x) and Type(x) on the shared scope find a binding, so none of them
+	// may ever fail, and a value read is one that was written.
+	shadowOps := 150000
+	if thorough {
+		shadowOps = 1500000
+	}
+	if !on("shadow") {
+		shadowOps = 0
+	}
+	if shadowOps > 0 {
+		desc := "parent: Define(x, -1), DefineType(x, int64); shared child: Define(x, 0); goroutine A: Set(x, i), Get(x), Type(x) in a loop on the child; goroutine B: Delete(x), Define(x, -2), DefineType(x, string) / delete of the type in a loop on the child"
+		current.Store(desc)
+		parent := env.NewEnv()
+		_ = parent.Define("x", int64(-1))
+		_ = parent.DefineType("x", int64(0))
+		shared := parent.NewEnv()
+		_ = shared.Define("x", int64(0))
+		stop := make(chan struct{})
+		var wg sync.WaitGroup
+		wg.Add(1)
+		go func() {
+			defer wg.Done()
+			for i := 0; ; i++ {
+				select {
+				case <-stop:
+					return
+				default:
+				}
+				shared.Delete("x")
+				_ = shared.Define("x", int64(-2))
+				if i%2 == 0 {
+					_ = shared.DefineType("x", "")
+				}
+			}
+		}()
+		var bad string
+		for i := 0; i < shadowOps && bad == ""; i++ {
+			if i%4096 == 0 {
+				atomic.AddInt64(&beat, 1)
+			}
+			if err := shared.Set("x", int64(i)); err != nil {
+				bad = fmt.Sprintf("Set(\"x\", %d) = %v", i, err)
+			}
+			if v, err := shared.Get("x"); err != nil {
+				bad = fmt.Sprintf("Get(\"x\") = %v", err)
+			} else if n, ok := v.(int64); !ok || n < -2 || n > int64(i) {
+				bad = fmt.Sprintf("Get(\"x\") = %v, a value nobody stored", v)
+			}
+			if _, err := shared.Type("x"); err != nil {
+				bad = fmt.Sprintf("Type(\"x\") = %v", err)
+			}
+		}
+		close(stop)
+		waitOrDeadlock(o, &wg, desc)
+		o.Sum.Evaluations += shadowOps
+		o.Sum.Hist["shadowed-symbol-ops"] += shadowOps
+		if bad != "" {
+			o.Fail(Failure{Oracle: "sequentially-consistent", Key: "env-not-linearizable:shadowed", Input: desc,
+				Detail: "an enclosing scope binds x throughout, yet " + bad + ": no one-at-a-time order of the calls produces that"})
+		}
+	}
 	// snapshot consistency: one writer runs a known sequence (value v_i, then type t_i, for i = 0..K-1) while
 	// readers copy the scope; every copy must be one of the K*2+1 states the scope passed through:
 	// values {v_0..v_a-1}, types {t_0..t_b-1} with b <= a <= b+1
